@@ -126,3 +126,11 @@ def run_cargo(ws, args, toolchain=None, env_extra=None):
         env.update(env_extra)
     cmd = ['cargo'] + ([toolchain] if toolchain else []) + list(args)
     return sh(cmd, cwd=ws, env=env)
+
+
+def shared_target():
+    """a target directory for plain (wrapper-less) cargo builds of witness crates, shared by the stages of one tree
+    so that the proc-macro and its dependencies are compiled once; lives in the cache and is pruned with it"""
+    d = os.path.join(CACHE, tree_hash(), 'target-plain')
+    os.makedirs(d, exist_ok=True)
+    return d
